@@ -42,13 +42,13 @@ CLAIMS = {
         "technique": "runtime monitoring: differential oracle against an independent reference renderer, panics caught",
     },
     "C12": {
-        "text": "Exploration with an exhaustive slice: '{msg:<align><W>[!]}' rendered through a real bar for W 0..=40 x 4 alignments x truncation on/off x 5 content classes (ascii, multi-byte 1-column, double-width, ANSI-coloured, combining marks) x shorter/exact/longer content (enumerated completely), then sampled widths up to 65535 and {wide_msg} lines on 1..120-column terminals; the field is measured in columns three independent ways (own ANSI stripper + unicode-width, console::measure_text_width, cursor column after feeding the text to VScreen) and compared with a column-based reference for padding side, kept range and exact width. Wide-neighbours lane: {wide_msg} next to padded fields whose widths add up to 0..140000 columns (around 255, 65535, 65536+w, 131072) on 4..65535-column terminals; the wide field must be exactly max(0, terminal - rest) columns.",
+        "text": "Exploration with an exhaustive slice: '{msg:<align><W>[!]}' rendered through a real bar for W 0..=40 x 4 alignments x truncation on/off x 5 content classes (ascii, multi-byte 1-column, double-width, ANSI-coloured, combining marks) x shorter/exact/longer content (enumerated completely), then sampled widths up to 65535 and {wide_msg} lines on 1..120-column terminals; the field is measured in columns three independent ways (own ANSI stripper + unicode-width, console::measure_text_width, cursor column after feeding the text to VScreen) and compared with a column-based reference for padding side, kept range and exact width. Wide-neighbours lane: {wide_msg} next to padded fields whose widths add up to 0..140000 columns (around 255, 65535, 65536+w, 131072) on 4..65535-column terminals; the wide field must be exactly max(0, terminal - rest) columns. Content also travels through prefix and custom keys (including keys that shadow bar, pos, wide_bar, eta); {bar:W} fields with 1- and 2-column cells must be exactly W columns with the padding on the aligned side.",
         "design_ref": "DESIGN.md §4 C12",
         "note": "Trusted: the column reference in harness/src/props/c12.rs and the unicode-width tables. Double-width content: W-1 columns are accepted where exactly W cannot be kept; combining marks are compared on base characters.",
         "technique": "runtime monitoring: differential oracle on rendered fields measured in terminal columns",
     },
     "C10": {
-        "text": "Exploration: (A) totality - grammar-generated templates, their single-character mutants and brace/colon/digit-biased random strings incl. arbitrary Unicode are parsed with with_template and template() under catch_unwind in release and debug builds: Ok or Err, never a panic; (B) fidelity - templates generated from an AST of the documented grammar (escaped braces adjacent to placeholders, '{'+whitespace literals, unknown keys, widths 0..65535 and beyond, alignment, '!', styles, 1-4 lines) are rendered through a real bar and the raw lines handed to the terminal must equal the AST's own rendering, line for line.",
+        "text": "Exploration: (A) totality - grammar-generated templates, their single-character mutants and brace/colon/digit-biased random strings incl. arbitrary Unicode are parsed with with_template and template() under catch_unwind in release and debug builds: Ok or Err, never a panic; (B) fidelity - templates generated from an AST of the documented grammar (escaped braces adjacent to placeholders, '{'+whitespace literals, unknown keys, widths 0..65535 and beyond, alignment, '!', styles, 1-4 lines) are rendered through a real bar and the raw lines handed to the terminal must equal the AST's own rendering, line for line. The grammar includes one {wide_msg} anywhere in the template (reference: terminal width minus the rest of its line).",
         "design_ref": "DESIGN.md §4 C10",
         "note": "Trusted: the AST renderer in harness/src/props/c10.rs (uses the C12 column reference for padded fields). A final empty template line may be present or absent; widths beyond u16::MAX must be rejected with Err.",
         "technique": "runtime monitoring: grammar-directed differential oracle + panic monitor",
@@ -60,25 +60,25 @@ CLAIMS = {
         "technique": "runtime monitoring: exhaustive-slice + sampled differential oracle on rendered bar cells",
     },
     "C14": {
-        "text": "Exploration: sequences of 1-3 builder calls with boundary arguments (0/1/2/3/30 tick characters, 0/1/2/3/8 tick strings incl. empty ones, 0..10 progress clusters of equal/mixed/zero width, with_key, template); a panic inside the builder call is the accepted explicit rejection; every accepted style is asked for tick strings at tick values up to u64::MAX and drawn for 6 bar states x 4 terminal widths in release and debug builds; any panic after acceptance is a violation. A render that allocates without bound is reported by the resource watchdog as resource-blowup [memory].",
+        "text": "Exploration: sequences of 1-3 builder calls with boundary arguments (0/1/2/3/30 tick characters, 0/1/2/3/8 tick strings incl. empty ones, 0..10 progress clusters of equal/mixed/zero width, with_key, template); a panic inside the builder call is the accepted explicit rejection; every accepted style is asked for tick strings at tick values up to u64::MAX and drawn for 6 bar states x 4 terminal widths in release and debug builds; any panic after acceptance is a violation. A render that allocates without bound is reported by the resource watchdog as resource-blowup [memory]. State sweep: a style with all 28 documented keys is drawn after each of 1-12 operations of an extreme history on a virtual clock (lengths 0/1/2^63/u64::MAX/none, u64-extreme positions, steps nanoseconds to decades apart, resets, finish/abandon), time getters included.",
         "design_ref": "DESIGN.md §4 C14",
         "note": "Tick counts beyond a few dozen are reached through the public ProgressStyle::get_tick_str(idx), not by ticking 2^32 times.",
         "technique": "runtime monitoring: panic monitor separating build-time rejection from draw-time panics",
     },
     "C05": {
-        "text": "Exploration on the virtual clock (no sleeping): arrival processes of 200-1500 requests with gaps from 0 ns bursts over k*interval+-{0,1,999999} ns to hours, for a seeded third of the rates (quick) / every rate 1..=255 (thorough), on term_like_with_hz and term_like spy targets, standalone and as the target of a MultiProgress with 1-3 bars. Monitors: sliding-window law count <= 20 + R*T + 1 over all pairs of ordinary frames (potential function, exact integer arithmetic); every ordinary request >= one interval after the last painted frame is painted; position updates obey burst 10 / 1 ms on an unlimited target; staleness <= interval + 1 ms after every position update on a limited target; every painted frame shows the latest pos/len/message; forced draws always paint.",
+        "text": "Exploration on the virtual clock (no sleeping): arrival processes of 200-1500 requests with gaps from 0 ns bursts over k*interval+-{0,1,999999} ns to hours, for a seeded third of the rates (quick) / every rate 1..=255 (thorough), on term_like_with_hz and term_like spy targets, standalone and as the target of a MultiProgress with 1-3 bars. Monitors: sliding-window law count <= 20 + R*T + 1 over all pairs of ordinary frames (potential function, exact integer arithmetic); every ordinary request >= one interval after the last painted frame is painted; position updates obey burst 10 / 1 ms on an unlimited target; staleness <= interval + 1 ms after every position update on a limited target; every painted frame shows the latest pos/len/message; forced draws always paint. MultiProgress worlds also issue nested requests (update() whose closure lets virtual time pass and redraws a sibling bar), which reach the shared limiter with a stamp older than its last frame.",
         "design_ref": "DESIGN.md §4 C05",
         "note": "Trusted: the verif-hooks Instant shim (virtual clock) and the frame/time log of the spy terminal. Frames triggered by MultiProgress::println are exempt from the 'latest state' rule (they re-render no bar).",
         "technique": "runtime monitoring: token-bucket trace laws checked over flush events on a virtual clock",
     },
     "C07": {
-        "text": "Exploration: (a) 3-40-step sequential histories with boundary-biased u64 arguments, getters/fraction compared with a wrapping/saturating model after every step, in release and debug (overflow-checking) builds; (b) 2-16 OS threads x 1-3 clones x up to 100000 inc/dec calls each on one shared bar with hidden / unlimited / 20 Hz targets and an optional 1 ms steady ticker: conservation of the wrapping sum after join (no lost update) and no backwards read in inc-only runs.",
+        "text": "Exploration: (a) 3-40-step sequential histories with boundary-biased u64 arguments, getters/fraction compared with a wrapping/saturating model after every step, in release and debug (overflow-checking) builds; (b) 2-16 OS threads x 1-3 clones x up to 100000 inc/dec calls each on one shared bar with hidden / unlimited / 20 Hz targets and an optional 1 ms steady ticker: conservation of the wrapping sum after join (no lost update) and no backwards read in inc-only runs. Concurrent length lane: 2-8 threads x 100-20000 inc_length/dec_length calls (optionally one unset_length); the final length is the initial one plus the sum of all deltas (or unknown); also in the Miri scenarios.",
         "design_ref": "DESIGN.md §4 C07",
         "note": "Interleavings are whatever the OS scheduler produces on 16 cores (contention indicator in the evidence: reads that observed foreign updates) plus Miri's seeded preemptive scheduler with weak-memory emulation and data-race detection on tiny workloads (miri lane); no systematic schedule enumeration.",
         "technique": "runtime monitoring: shadow model for getters + conservation/monotonicity monitor over concurrent increments",
     },
     "C09": {
-        "text": "Exploration on the virtual clock through the public getters only (per_sec, eta, duration, elapsed): four law families - steady progress at an exactly constant rate under log-uniform/tiny/fixed cadences from 1 ms to 10 days (relative error <= 1e-6); boundedness by the largest segment rate and stall behaviour queried at nine instants up to one hour (never above the bound, below 1% after 60 s, monotone decay); forgetting (H1; reset_eta|reset|rewind; H2 must equal a fresh bar fed H2 alone within 1e-9); corners (no progress, zero/unknown length, finished). eta = (len-pos)/per_sec and duration = elapsed+eta are checked at every query instant.",
+        "text": "Exploration on the virtual clock through the public getters only (per_sec, eta, duration, elapsed): four law families - steady progress at an exactly constant rate under log-uniform/tiny/fixed cadences from 1 ms to 10 days (relative error <= 1e-6); boundedness by the largest segment rate and stall behaviour queried at nine instants up to one hour (never above the bound, below 1% after 60 s, monotone decay); forgetting (H1; reset_eta|reset|rewind; H2 must equal a fresh bar fed H2 alone within 1e-9); corners (no progress, zero/unknown length, finished). eta = (len-pos)/per_sec and duration = elapsed+eta are checked at every query instant. The forget family covers reset_eta, reset, reset_elapsed and rewinding.",
         "design_ref": "DESIGN.md §4 C09",
         "note": "Laws, not a closed form (none exists for irregular cadences). Trusted: the virtual clock shim. The monotone-decay law is a recorded known finding (rises at the start of some stalls by design); the other stall laws are still evaluated in those histories.",
         "technique": "runtime monitoring: algebraic/metamorphic trace laws over getter values on a virtual clock",
@@ -90,13 +90,13 @@ CLAIMS = {
         "technique": "runtime monitoring: per-key differential oracle (rendered text vs getters at a frozen virtual instant)",
     },
     "C16": {
-        "text": "Exploration: builder calls (with_tab_width/with_style/with_message/with_prefix) in random order, then 1-6 of set_tab_width/set_style/set_message/set_prefix and a finishing message (explicit or through finish-on-drop behaviour), tab widths {0,1,2,8,13}, texts with up to 10 tabs, tabs in template literals and custom-key output, standalone and inside a MultiProgress; after every operation every string handed to write_str/write_line is scanned for TAB bytes, the forced frame must equal the model with every tab replaced by current-tab-width spaces, and message()/prefix() must return the expanded text. Concurrent lane: set_message/set_prefix/finish_with_message with a text whose Into<Cow<str>> conversion lets a second thread run set_tab_width inside the call; afterwards message()/prefix() and the frame must be expanded with the new width.",
+        "text": "Exploration: builder calls (with_tab_width/with_style/with_message/with_prefix) in random order, then 1-6 of set_tab_width/set_style/set_message/set_prefix and a finishing message (explicit or through finish-on-drop behaviour), tab widths {0,1,2,8,13}, texts with up to 10 tabs, tabs in template literals and custom-key output, standalone and inside a MultiProgress; after every operation every string handed to write_str/write_line is scanned for TAB bytes, the forced frame must equal the model with every tab replaced by current-tab-width spaces, and message()/prefix() must return the expanded text. Concurrent lane: set_message/set_prefix/finish_with_message with a text whose Into<Cow<str>> conversion lets a second thread run set_tab_width inside the call; afterwards message()/prefix() and the frame must be expanded with the new width. Styles are installed fresh or as the bar's own style() with a new template.",
         "design_ref": "DESIGN.md §4 C16",
         "note": "println texts contain no tabs here: the statement is about bar lines.",
         "technique": "runtime monitoring: byte scan of the terminal call log + model comparison after every operation",
     },
     "C06": {
-        "text": "Exploration: 2-30-step histories (incl. println, suspend, 1 ms steady tick, wrap_iter, every finish variant) applied in lock-step to a hidden bar and to a visible twin on a spy terminal; hidden kinds: hidden() target, member of MultiProgress::with_draw_target(hidden()), bar removed from a spy-backed MultiProgress (the spy's call counter must not move for any call on that bar or its drop), and - in child processes whose stdout and stderr are pipes, i.e. the real console::Term code path with is_term() == false - stderr(), stdout(), stderr_with_hz(60) targets and MultiProgress::new(); getters (position, length, message, prefix, is_finished) and return values are compared after every step; any byte on the children's pipes is a violation.",
+        "text": "Exploration: 2-30-step histories (incl. println, suspend, 1 ms steady tick, wrap_iter, every finish variant) applied in lock-step to a hidden bar and to a visible twin on a spy terminal; hidden kinds: hidden() target, member of MultiProgress::with_draw_target(hidden()), bar removed from a spy-backed MultiProgress (the spy's call counter must not move for any call on that bar or its drop), and - in child processes whose stdout and stderr are pipes, i.e. the real console::Term code path with is_term() == false - stderr(), stdout(), stderr_with_hz(60) targets and MultiProgress::new(); getters (position, length, message, prefix, is_finished) and return values are compared after every step; any byte on the children's pipes is a violation. The twin alphabet includes texts with tabs, set_tab_width, set_style, update, finish_using_style, reset_eta and reset_elapsed.",
         "design_ref": "DESIGN.md §4 C06",
         "note": "Trusted: the OS pipe as byte counter; the visible twin as the reference for the logical state.",
         "technique": "runtime monitoring: silence monitor (terminal call counter / pipe byte count) + lock-step twin comparison",
